@@ -20,11 +20,11 @@ def bump (cs : List (String × Nat)) (k : String) : List (String × Nat) :=
   | [] => [(k, 1)]
   | (k', n) :: t => if k' == k then (k', n + 1) :: t else (k', n) :: bump t k
 
-def processLine (st : Stats) (lineNo : Nat) (line : String) : Stats × Option String :=
+def processLine (st : Stats) (lineNo : Nat) (line : String) : IO (Stats × Option String) := do
   let line := line.trimAscii.toString
-  if line.isEmpty || line.startsWith "#" then (st, none) else
+  if line.isEmpty || line.startsWith "#" then return (st, none)
   let st := { st with lines := st.lines + 1 }
-  match line.splitOn " => " with
+  match line.splitOn " =>" with
   | [lhs, rhs] =>
     let ltoks := (lhs.splitOn " ").filter (· ≠ "")
     let rtoks := (rhs.splitOn " ").filter (· ≠ "")
@@ -32,25 +32,28 @@ def processLine (st : Stats) (lineNo : Nat) (line : String) : Stats × Option St
     | op :: argToks =>
       match findHandler op, argToks.mapM parseInt?, rtoks.mapM parseInt? with
       | some h, some args, some impl =>
-        match h.run args, h.spec args impl with
+        let rv ← h.run args
+        let sv ← h.spec args impl
+        let lhsShort := if lhs.length > 300 then (lhs.take 300).toString ++ " …" else lhs
+        match rv, sv with
         | some v, some sok =>
           let st := { st with classes := bump st.classes (op ++ ":" ++ v.cls) }
           if !sok then
-            ({ st with specFail := st.specFail + 1 },
-             some s!"SPECFAIL {lineNo} {lhs} => impl {showInts impl} model {showInts v.model}")
+            return ({ st with specFail := st.specFail + 1 },
+             some s!"SPECFAIL {lineNo} {lhsShort} => impl {showInts (impl.take 64)} model {showInts (v.model.take 64)}")
           else if !v.relational && v.model != impl then
-            ({ st with modelDiff := st.modelDiff + 1 },
-             some s!"MODELDIFF {lineNo} {lhs} => impl {showInts impl} model {showInts v.model}")
-          else ({ st with ok := st.ok + 1 }, none)
-        | _, _ => ({ st with bad := st.bad + 1 }, some s!"BAD {lineNo} handler-rejected {lhs}")
-      | _, _, _ => ({ st with bad := st.bad + 1 }, some s!"BAD {lineNo} unparsable {lhs}")
-    | [] => ({ st with bad := st.bad + 1 }, some s!"BAD {lineNo} empty")
-  | _ => ({ st with bad := st.bad + 1 }, some s!"BAD {lineNo} no-arrow")
+            return ({ st with modelDiff := st.modelDiff + 1 },
+             some s!"MODELDIFF {lineNo} {lhsShort} => impl {showInts (impl.take 64)} model {showInts (v.model.take 64)}")
+          else return ({ st with ok := st.ok + 1 }, none)
+        | _, _ => return ({ st with bad := st.bad + 1 }, some s!"BAD {lineNo} handler-rejected {lhsShort}")
+      | _, _, _ => return ({ st with bad := st.bad + 1 }, some s!"BAD {lineNo} unparsable {(lhs.take 200).toString}")
+    | [] => return ({ st with bad := st.bad + 1 }, some s!"BAD {lineNo} empty")
+  | _ => return ({ st with bad := st.bad + 1 }, some s!"BAD {lineNo} no-arrow")
 
 partial def loop (h : IO.FS.Stream) (out : IO.FS.Stream) (st : Stats) (n : Nat) : IO Stats := do
   let line ← h.getLine
   if line.isEmpty then return st
-  let (st', msg) := processLine st n line
+  let (st', msg) ← processLine st n line
   if let some m := msg then out.putStrLn m
   loop h out st' (n + 1)
 
